@@ -444,7 +444,7 @@ func runCheck(prop, tier string, seed int) int {
 			// the solver's counterexample was run on the real function: on the real output the clause holds or fails
 			// depending only on what an uninterpreted library function returns, so this refutation decides nothing
 			// (the bounded companion of the property, which executes the real formatting, is what decides)
-			rep.undecided = append(rep.undecided, fmt.Sprintf("%s: refuted only through an uninterpreted library function (on the real output for the counterexample the clause is true or false depending only on what that function returns); see %s", o.Name, path))
+			rep.undecided = append(rep.undecided, fmt.Sprintf("%s: refuted only through an uninterpreted library function: the counterexample was run on the real function and the clause, evaluated concretely on the real output, holds; see %s", o.Name, path))
 			continue
 		}
 		line := fmt.Sprintf("VIOLATION property=%s replay=%s", prop, path)
